@@ -154,6 +154,9 @@ pub const SCHEMA_RONS: &[&str] = &[
     "(core:[var(ts(\"YYYY\")),var(ts(\"MM\")),var(ts(\"DD\"))],extra_core:[var(Epoch),var(PreRelease),var(Post),var(Dev)],build:[var(custom(\"a.b\"))])",
     "(core:[var(ts(\"YYYYMMDD\"))],extra_core:[],build:[])",
     "(core:[var(ts(\"QQ\"))],extra_core:[],build:[])",
+    "(core:[var(Major),var(ts(\"%Q\"))],extra_core:[],build:[var(ts(\"%\")),var(ts(\"%Y%\")),var(ts(\"%E\")),var(ts(\"%5\"))])",
+    "(core:[var(Major)],extra_core:[var(ts(\"%Y-%m-%d %H:%M:%S %z %Z %A %j %U %s %f %+\"))],build:[var(ts(\"%Q\"))])",
+    "(core:[var(ts(\"YYYY \")),var(ts(\" 0M\")),var(ts(\"DD\\n\"))],extra_core:[],build:[var(ts(\"yyyy\")),var(ts(\"YYYYY\"))])",
     "(core:[var(ts(\"compact_datetime\")),var(ts(\"0W\")),var(ts(\"HH0mSS\"))],extra_core:[],build:[str(\"é\"),uint(18446744073709551615)])",
     "(core:[],extra_core:[],build:[])",
     "(core:[var(Minor),var(Major)],extra_core:[],build:[])",
